@@ -412,3 +412,44 @@ func vResolveVar() (int, []string) {
 //@   loop 2 invariant forall(r, 0, rangeindex1, forall(s, 0, len(m[r].selector), m[r].selector[s].Match(element) ==> exists(k, 0, len(out), out[k].specificity == m[r].selector[s].Specificity() && out[k].pseudoType == m[r].selector[s].PseudoElement() && out[k].payload == m[r].declarations)))
 //@   loop 2 invariant forall(s, 0, rangeindex + 1, mat.selector[s].Match(element) ==> exists(k, 0, len(out), out[k].specificity == mat.selector[s].Specificity() && out[k].pseudoType == mat.selector[s].PseudoElement() && out[k].payload == mat.declarations))
 //@   loop 2 decreases len(mat.selector) - rangeindex
+
+// CSS 2.1 §9.7 "relationships between display, position and float": an absolutely positioned (or running)
+// element does not float; a floated, absolutely positioned or root element is blockified:
+// inline-table -> table, inline / table-* (row, cell, ...) -> block (list-item kept).
+//@ func floating
+//@   props C04
+//@   nopanic
+//@   requires computer != nil && typeIs(_value, pr.String)
+//@   let pos = computer.specified.Position
+//@   ensures[absolute-does-not-float] pos.String == "absolute" || pos.String == "fixed" || pos.Bool ==> typeIs(result, pr.String) && result.(pr.String) == "none"
+//@   ensures[otherwise-as-specified] !(pos.String == "absolute" || pos.String == "fixed" || pos.Bool) ==> typeIs(result, pr.String) && result.(pr.String) == _value.(pr.String)
+
+//@ func display
+//@   props C04
+//@   nopanic
+//@   requires computer != nil && typeIs(_value, pr.Display)
+//@   let v = _value.(pr.Display)
+//@   let pos = computer.specified.Position
+//@   let blockify = (!pos.Bool && (pos.String == "absolute" || pos.String == "fixed")) || computer.specified.Float != "none" || computer.parentStyle == nil
+//@   let out = result.(pr.Display)
+//@   ensures typeIs(result, pr.Display)
+//@   ensures[in-flow-unchanged] !blockify ==> out == v
+//@   ensures[inline-table] blockify && v[0] == "inline-table" && v[1] == "" && v[2] == "" ==> out[0] == "block" && out[1] == "table" && out[2] == ""
+//@   ensures[inline] blockify && v[0] == "inline" ==> out[0] == "block" && out[1] == "flow" && out[2] == ite(v[1] == "list-item" || v[2] == "list-item", "list-item", "")
+//@   ensures[already-block] blockify && (v[0] == "block" || v[0] == "flex" || v[0] == "grid" || v[0] == "table" || v[0] == "none") ==> out == v
+
+// CSS 2.1 §8.5.1: the computed border width is 0 when the border style is none or hidden; thin / medium /
+// thick are 1 / 3 / 5 px.
+//@ func borderWidth
+//@   props C04
+//@   modifies anything
+//@   unclaimed call-length_@1-pre1 "the value of a border width is a validated length: data invariant of cascaded values"
+//@   return 1 ensures[no-border-style] style == "none" || style == "hidden"
+//@   return 1 ensures[zero] result.(pr.DimOrS).Value == 0
+//@   return 1 ensures[zero-t] typeIs(result, pr.DimOrS)
+//@   return 2 ensures[keyword-style] style != "none" && style != "hidden" && typeIs(result, pr.DimOrS)
+//@   return 2 ensures[thin] value.S == "thin" ==> result.(pr.DimOrS).Value == 1
+//@   return 2 ensures[medium] value.S == "medium" ==> result.(pr.DimOrS).Value == 3
+//@   return 2 ensures[thick] value.S == "thick" ==> result.(pr.DimOrS).Value == 5
+//@   return 2 ensures[only-keywords] value.S == "thin" || value.S == "medium" || value.S == "thick"
+//@   return 3 ensures[length] style != "none" && style != "hidden" && value.S != "thin" && value.S != "medium" && value.S != "thick"
